@@ -30,6 +30,13 @@ def palette_normalisation(model: Model, rr: RuleResult, only_v0: bool = False):
         v1_norm, v0_norm = norm(elt.body), norm(elt.orelse)
     elif not isinstance(elt, ast.IfExp):
         v0_norm = v1_norm = norm(elt)  # one normalisation for both COLR versions
+    elif isinstance(elt, ast.IfExp) and isinstance(elt.test, ast.BoolOp) and any(norm(x) in ("colr_version != 0", "colr_version == 1", "colr_version > 0", "colr_version == 0") for x in elt.test.values):
+        # the version test is combined with a property of the colour: for COLRv0 some colours take one arm and some the other
+        other = [norm(x) for x in elt.test.values if "colr_version" not in norm(x)]
+        arms = sorted({norm(elt.body), norm(elt.orelse)})
+        rr.bad(fi, elt, f"the palette entry of a colour is `{short(elt, 90)}`: within one COLR version colours are stored {arms[0]} or {arms[1]} depending on {other}; COLRv0 has no other place "
+               f"for alpha than the palette entry, so every colour for which the opaque arm is taken loses its alpha", construct=f"palette normalisation depends on {other}")
+        return
     else:
         raise AnalysisError(f"_colr_ufo: palette normalisation {short(elt)} outside the enumerated idioms")
     if v0_norm == var:
@@ -97,6 +104,19 @@ def _assigned_name(fi, call) -> Optional[ast.AST]:
 @RULES.rule("C15", "R15a", "palette normalisation at build time = normalisation at every look-up; alpha split", floor=8)
 def r15a(model: Model, rr: RuleResult):
     palette_normalisation(model, rr)
+    # the colours the palette is built from: every paint of the tree is asked, not a chosen kind of paint
+    cg = model.func("color_glyph", "ColorGlyph.colors")
+    ups = [c for c in calls_in(cg, nested=True) if callee_tail(c) == "update" and c.args and isinstance(c.args[0], ast.Call) and callee_tail(c.args[0]) == "colors"]
+    if len(ups) == 1:
+        guards = [x for x in ast.walk(cg.node) if isinstance(x, (ast.If, ast.IfExp)) and any(y is ups[0] for y in ast.walk(x))]
+        if guards:
+            rr.bad(cg, guards[0], f"ColorGlyph.colors() only collects colours of paints for which `{short(guards[0].test, 60)}`: colours that other paints carry (the black backdrop of a group "
+                   f"opacity PaintComposite, which COLRv1 emits as PaintSolid and looks up) are missing from the palette and the look-up fails or hits another entry",
+                   construct="ColorGlyph.colors: paints filtered by kind")
+        else:
+            rr.ok("ColorGlyph.colors() unions paint.colors() over every paint of the tree")
+    else:
+        rr.bad_shape(cg, cg.node, "ColorGlyph.colors() does not union paint.colors() over the tree", construct="ColorGlyph.colors")
 
 
 @RULES.rule("C15", "R15b", "foreground colour is excluded from the palette by the predicate index_from short-circuits on", floor=4)
@@ -118,7 +138,13 @@ def r15b(model: Model, rr: RuleResult):
     from ..guards import return_cases
     cases = return_cases(ifn)
     ffff = [(v, f) for v, f in cases if v is not None and norm(v) in ("65535", "0xFFFF")]
-    if ffff and all(f == [("self.is_current_color()", True)] for v, f in ffff):
+    early = [(v, f) for v, f in cases if v is not None and norm(v) not in ("65535", "0xFFFF")
+             and not any(pol is False and ("is_current_color" in t or "current_color" in t or ".red" in t) for t, pol in f)]
+    late_fg = [(v, f) for v, f in ffff if f and f[-1][1] is True and len(f) > 1]
+    if early and late_fg:
+        rr.bad(ifn, early[0][0], f"index_from returns `{short(early[0][0], 40)}` (under {early[0][1]}) BEFORE it asks whether the colour is the foreground colour: var(--colorN, currentColor) "
+               f"parses to the currentColor sentinel that also carries palette_index N, so it gets palette slot N instead of 0xFFFF", construct="Color.index_from: an index is returned before the foreground test")
+    elif ffff and all(f == [("self.is_current_color()", True)] for v, f in ffff):
         rr.ok("index_from returns 0xFFFF exactly when is_current_color()")
     elif ffff and any(not f for v, f in ffff):
         rr.bad(ifn, ifn.node, "index_from maps every colour to 0xFFFF", construct="Color.index_from: foreground")
